@@ -138,7 +138,7 @@ ADDENDA = {
     "C02": (" Third round: findRecursionPoints on all 3-node call graphs and sampled 4/5-node graphs; slot classification over routine-subset families; frame-pointer routines with body-allocated locals (deferred frame_bury 0); probe handler for recursive ABI subroutines.", "; exhaustive small-graph enumeration"),
     "C03": (" Third round: both calling conventions (R02.2) and the allocator (R10.1) are part of the option-independence argument; slot classification families; dependency scan with loads before the pair.", ""),
     "C04": (" Third round: slot-count limit with requested slots, flattenBlocks label discipline decided on flattened graphs, isTerminal, one-line comment ops (shared rules).", ""),
-    "C05": (" Third round: ScratchVar and FrameVar (the two AbstractVar implementations) are interpreted from their class definitions and must refuse exactly the values the reference relation refuses; skip-set and prologue rules shared in. Fourth round: If chains built through the repository's own Then/ElseIf/Else methods are typed like the positional form (found and fixed a defect); asset/app/holding accessors agree with their field tables.", "; sibling cross-check of interpreted classes"),
+    "C05": (" Third round: ScratchVar and FrameVar (the two AbstractVar implementations) are interpreted from their class definitions and must refuse exactly the values the reference relation refuses; skip-set and prologue rules shared in. Fourth round: If chains built through the repository's own Then/ElseIf/Else methods are typed like the positional form (found and fixed a defect); asset/app/holding accessors agree with their field tables. Fifth round: every control construct and every operator factory is built from operands of each type and what is accepted (construction and lowering together) is compared with the discipline - found and fixed Eq/Neq over operands that leave nothing.", "; sibling cross-check of interpreted classes"),
     "C06": (" Third round: reference types in the descriptor universe; optimiser dependency scan and exception-safe proto restore shared in.", ""),
     "C07": (" Third round: Substring/Extract/Suffix lowering evaluated for every version and operand range and read as byte ranges under the AVM meaning of extract/extract3/substring/substring3; all member sequences between two dynamic members; ABI-layer global-state inventory.", "; denotational comparison of slice terms"),
     "C08": (" Third round: Router.method keyword semantics over all assignments of {omitted, NEVER, CALL, CREATE, ALL}; build / register / build history; named-integer table (resolved through the SDK source if not literal).", ""),
